@@ -129,6 +129,8 @@ def observe(case: Dict[str, Any]) -> Dict[str, Any]:
                     "usedEnums": list(g.get_used_enums()), "usedScalars": list(g._used_scalars),
                     "mixins": sorted(g.get_fragments_used_as_mixins()), "unpacked": sorted(g.get_unpacked_fragments()),
                     "publicNames": list(g.get_generated_public_names()), "marks": new_marks(before)}
+            if not scalars:
+                impl["mixinImports"] = mixin_imports
             try:
                 impl["related"] = sorted(g._get_all_related_fragments())
                 impl["opstr"] = g.get_operation_as_str()
